@@ -58,10 +58,122 @@ def encodeOp (op : String) (arg : String) : String :=
   | "e_str" => match parseHex arg with | some v => hexOf (encString v) | none => "bad-op"
   | _ => "bad-op"
 
+/-- the model's evaluation of the C10 oracle ops -/
+def okI (r : Res (Int × Nat)) (v : Int) (n : Nat) (fits : Bool) : Bool :=
+  match r with
+  | .ok (x, m) => fits && x == v && m == n
+  | .err .overflow _ => !fits
+  | _ => false
+
+def okU (r : Res (Nat × Nat)) (v : Nat) (n : Nat) (fits : Bool) : Bool :=
+  match r with
+  | .ok (x, m) => fits && x == v && m == n
+  | .err .overflow _ => !fits
+  | _ => false
+
+def rtPrefixes : List Bytes := [[], [1, 2, 0xfd], [0xff, 0xfe]]
+
+def rtInt (enc : Bytes) (v : Int) : Bool :=
+  rtPrefixes.all fun p =>
+    okI (decodeInt16 (p ++ enc)) v enc.length (-32768 ≤ v && v ≤ 32767) &&
+    okI (decodeInt32 (p ++ enc)) v enc.length (-2147483648 ≤ v && v ≤ 2147483647) &&
+    okI (decodeInt64 (p ++ enc)) v enc.length true
+
+def rtUint (enc : Bytes) (v : Nat) : Bool :=
+  rtPrefixes.all fun p =>
+    okU (decodeUint16 (p ++ enc)) v enc.length (v ≤ 65535) &&
+    okU (decodeUint32 (p ++ enc)) v enc.length (v ≤ 4294967295) &&
+    okU (decodeUint64 (p ++ enc)) v enc.length true
+
+def isNaN32 (bits : Nat) : Bool := (bits / 2^23) % 256 == 255 && bits % 2^23 != 0
+def isNaN64 (bits : Nat) : Bool := (bits / 2^52) % 2048 == 2047 && bits % 2^52 != 0
+
+def rtOp (op arg : String) : String :=
+  let b2s (b : Bool) := if b then "ok" else "VIOL model"
+  match op with
+  | "rt_i16" => match arg.toInt? with | some v => b2s (rtInt (encInt16 v) v) | none => "bad-op"
+  | "rt_i32" => match arg.toInt? with | some v => b2s (rtInt (encInt32 v) v) | none => "bad-op"
+  | "rt_i64" => match arg.toInt? with | some v => b2s (rtInt (encInt64 v) v) | none => "bad-op"
+  | "rt_u16" => match arg.toNat? with | some v => b2s (rtUint (encUint16 v) v) | none => "bad-op"
+  | "rt_u32" => match arg.toNat? with | some v => b2s (rtUint (encUint32 v) v) | none => "bad-op"
+  | "rt_u64" => match arg.toNat? with | some v => b2s (rtUint (encUint64 v) v) | none => "bad-op"
+  | "rt_f32" =>
+    match arg.toNat? with
+    | none => "bad-op"
+    | some x =>
+      let enc := encFloat32 x
+      b2s <| rtPrefixes.all fun p =>
+        (match decodeFloat32 F (p ++ enc) with
+          | .ok (y, n) => n == 5 && (y == x || (isNaN32 x && isNaN32 y))
+          | _ => false) &&
+        (match decodeFloat64 F (p ++ enc) with
+          | .ok (y, n) => n == 5 && (y == F.widen x || (isNaN32 x && isNaN64 y))
+          | _ => false)
+  | "rt_f64" =>
+    match arg.toNat? with
+    | none => "bad-op"
+    | some y =>
+      let enc := encFloat64 y
+      let representable := isNaN64 y || F.isInf y || !(F.ltNegMax y || F.gtMax y)
+      b2s <| rtPrefixes.all fun p =>
+        (match decodeFloat64 F (p ++ enc) with
+          | .ok (z, n) => n == 9 && z == y
+          | _ => false) &&
+        (match decodeFloat32 F (p ++ enc) with
+          | .ok (z, n) => representable && n == 9 && (z == F.narrow y || (isNaN64 y && isNaN32 z))
+          | .err .overflow _ => !representable
+          | _ => false)
+  | "rt_bytes" =>
+    match parseHex arg with
+    | none => "bad-op"
+    | some v => b2s <| rtPrefixes.all fun p =>
+        match decodeBytes (p ++ encBytes v) with
+        | .ok (x, n) => x == v && n == (encBytes v).length
+        | _ => false
+  | "rt_str" =>
+    match parseHex arg with
+    | none => "bad-op"
+    | some v => b2s <| rtPrefixes.all fun p =>
+        match decodeString (p ++ encString v) with
+        | .ok (x, n) => x == v && n == (encString v).length
+        | _ => false
+  | _ => "bad-op"
+
+/-- C13 composite check on the model: parse / probe / open agree, decoding is local. -/
+def c13Prefixes : List Bytes := [[0xfd], [0xfe, 0xfe], [0xff, 0xff, 0xff], [1, 2, 0xfd], [0x00], [7, 0xfe, 0xff, 0xfd, 3]]
+
+def c13Op (b : Bytes) : String :=
+  match parseValue F (b.length + 1) b with
+  | .panic => "VIOL parse-panic"
+  | .err _ _ => "rejected"
+  | .ok n =>
+    let v := lastN n b
+    let bad : List String :=
+      (match decodeTypeSize b with
+        | .ok (t, m) => if m == n && t == (decodeType b).1 then [] else ["probe-size"]
+        | _ => ["probe-rejects"]) ++
+      (match openValue b with
+        | .ok o => if o == v then [] else ["open-differs"]
+        | _ => ["open-fails"]) ++
+      (match parseValue F (v.length + 1) v with
+        | .ok m => if m == n then [] else ["reparse-size"]
+        | _ => ["reparse-fails"]) ++
+      (let w := walk F (v.length + 1) v
+       (if (w.splitOn "!").length > 1 || (w.splitOn "PANIC").length > 1 then ["reread-error"] else []) ++
+       (c13Prefixes.flatMap fun p =>
+          let pb := p ++ v
+          (match parseValue F (pb.length + 1) pb with
+            | .ok m => if m == n then [] else ["prefix-parse-size"]
+            | _ => ["prefix-parse-fails"]) ++
+          (if walk F (pb.length + 1) pb == w then [] else ["prefix-walk-differs"])))
+    if bad.isEmpty then "accepted " ++ toString n else "VIOL " ++ " ".intercalate bad.eraseDups
+
 def step (line : String) : String :=
   match line.splitOn " " with
   | [op, arg] =>
     if op.startsWith "e_" then encodeOp op arg else
+    if op.startsWith "rt_" then rtOp op arg else
+    if op == "c13" then (match parseHex arg with | some b => c13Op b | none => "bad-op") else
     match parseHex arg with
     | some b => decodeOp op b
     | none => "bad-op"
